@@ -32,7 +32,7 @@ def run():
                                      ("MC_Sessions", "MC_Sessions_2a.cfg", ["Step", "Abandon", "Crash"]),
                                      ("RuleReg", "MC_RuleReg.cfg", ["Register"]),
                                      ("Derive", "MC_Derive_pod_q.cfg", ["Next"])):
-            r = tlc.run_tlc(module, cfg=cfg, env=env, timeout=600, coverage=True, workers=4)
+            r = tlc.run_tlc(module, cfg=cfg, env=env, timeout=3000, coverage=True, workers=8)
             missing = [a for a in actions if r.coverage.get(a, (0, 0))[1] == 0]
             bad += expect("%s/%s: every action taken (%s)" % (module, cfg, ", ".join("%s=%d" % (a, r.coverage.get(a, (0, 0))[1]) for a in actions)),
                           r.ok and not missing, "never taken: %s" % missing)
